@@ -155,6 +155,8 @@ impl<BE: DecryptWriteBackend> Indexer<BE> {
     ///
     /// * If the index file could not be serialized.
     pub fn add_with(&mut self, pack: IndexPack, delete: bool) -> RusticResult<()> {
+        #[cfg(feature = "verif")]
+        crate::verif::point::hit("indexer.add");
         self.count += pack.blobs.len();
 
         if let Some(indexed) = &mut self.indexed {
@@ -170,6 +172,12 @@ impl<BE: DecryptWriteBackend> Indexer<BE> {
             warn!("couldn't get elapsed time from system time: {err:?}");
             Duration::ZERO
         });
+        #[cfg(feature = "verif")]
+        if crate::verif::limits::indexer_max_count().is_some_and(|n| self.count >= n) {
+            self.save()?;
+            self.reset();
+            return Ok(());
+        }
         if self.count >= constants::MAX_COUNT || elapsed >= constants::MAX_AGE {
             self.save()?;
             self.reset();
@@ -183,6 +191,8 @@ impl<BE: DecryptWriteBackend> Indexer<BE> {
     ///
     /// * `id` - The id to check.
     pub fn has(&self, id: &BlobId) -> bool {
+        #[cfg(feature = "verif")]
+        crate::verif::point::hit("indexer.has");
         self.indexed
             .as_ref()
             .is_some_and(|indexed| indexed.contains(id))
